@@ -18,6 +18,7 @@ import (
 	cidlink "github.com/ipld/go-ipld-prime/linking/cid"
 
 	"verif/harness/core"
+	"verif/harness/gen"
 	"verif/harness/model"
 	"verif/harness/store"
 )
@@ -46,12 +47,19 @@ type fsSpec struct {
 	// LongNames: the children are named with names of the maximum length the
 	// file system allows (255 bytes; ASCII, 3-byte runes, 254 bytes)
 	LongNames bool `json:"longnames,omitempty"`
+	// CollideNames: the children get names whose murmur3 hashes agree in their
+	// first 40 / 56 bits (a sharded directory holds them 5 / 7 levels down)
+	CollideNames bool `json:"collidenames,omitempty"`
 }
 
 // fsLongNames: names at the 255-byte limit of the usual file systems.
 var fsLongNames = []string{strings.Repeat("x", 255), strings.Repeat("語", 85), strings.Repeat("y", 254), strings.Repeat("é", 127) + "z"}
 
 func (s fsSpec) childName(i int) string {
+	if s.CollideNames {
+		base := uint64(0x7A3F11C29D000000)
+		return gen.NameWithHash([]uint64{base | 0x010203, base | 0xF0F0F0, base | 0x0102FF, base ^ 0x80}[i])
+	}
 	if s.LongNames {
 		return fsLongNames[i]
 	}
@@ -483,6 +491,8 @@ func runC18(r *core.Run) {
 		// files whose chunks repeat
 		fsCase{Root: fsSpec{Kind: "Z"}}, fsCase{Root: fsSpec{Kind: "ZA"}},
 		fsCase{Root: fsSpec{Kind: "D", Children: []fsSpec{{Kind: "Z"}, {Kind: "F"}, {Kind: "ZA"}}}},
+		// names whose hashes collide deep into the HAMT, in an auto-sharded directory
+		fsCase{Root: fsSpec{Kind: "D", NGen: 1111, NameLen: 200, CollideNames: true, Children: []fsSpec{{Kind: "F"}, {Kind: "F"}, {Kind: "F"}, {Kind: "E"}}}},
 		// long symlink targets
 		fsCase{Root: fsSpec{Kind: "LL"}}, fsCase{Root: fsSpec{Kind: "LX"}},
 		fsCase{Root: fsSpec{Kind: "D", Children: []fsSpec{{Kind: "LL"}, {Kind: "F"}, {Kind: "LX"}, {Kind: "D", Children: []fsSpec{{Kind: "LL"}}}}}},
